@@ -478,5 +478,28 @@ def run(F, rep, tier):
         rep.ok('R5.9', 'CataExtremum::give', 'agrees with Extremum::run')
     else:
         rep.viol('R5.9', 'CataExtremum::give|shape', 'the folding form `yield .. into max|min` disagrees with max|min applied to the list: %s' % why_, loc_)
+    # ---------------- R5.11
+    rep.rule('R5.11', 'keyed `for .. yield k: v into f`: the value expression is evaluated only while the fold of its key is still running - in the '
+             'per-element closure every evaluate(..) that runs before the accumulator lookup (HashMap::entry) produces the key; an evaluation '
+             'that dominates the lookup and does not feed it also runs for keys whose fold has already finished (`into first`), so its side '
+             'effects are observed although the element is ignored')
+    n11 = 0
+    for kb in F.all_bodies():
+        ent = [c for c in kb.calls if c.target.endswith('::entry') and any('Catamorphism' in str(g) for g in (c.callee.get('g') or []))]
+        if not ent:
+            continue
+        for e_ in ent:
+            keyroots = kb.roots(e_.args[1], through_calls=('to_key', 'branch', 'clone', 'into'))
+            keybbs = {r_[2] for r_ in keyroots if r_[0] == 'call' and r_[1] == 'eval::evaluate'}
+            evs = [c for c in kb.calls if c.target == 'eval::evaluate' and c.bb != e_.bb and kb.dominates(c.bb, e_.bb)]
+            n11 += 1
+            stray = [c for c in evs if c.bb not in keybbs]
+            if stray:
+                rep.viol('R5.11', 'keyed-yield|value-before-lookup', 'the per-element closure of the keyed yield evaluates an expression that is not the key before it looks the key up: the value expression then also runs for keys whose fold has finished', stray[0].loc())
+            elif not keybbs:
+                rep.error('R5.11', 'the key of the accumulator lookup does not come from an evaluate call')
+            else:
+                rep.ok('R5.11', 'keyed yield: evaluations before the lookup', '%d, all of them the key' % len(evs))
+    rep.floor('R5.11', 'keyed-yield accumulator lookups', n11, 1)
     rep.undecided += ['equivalence with a reference interpreter over all programs', 'yield/into folding values', 'eval of computed strings']
     return META
